@@ -55,7 +55,6 @@ CONSTANTS
 VARIABLES prog, org, phase, pass, i, m, snap
 vars == <<prog, org, phase, pass, i, m, snap>>
 
-NoLab == "-"
 Dangling == "!"
 MaxSymPass == 1
 
@@ -122,21 +121,32 @@ PadIfOdd(s, it) == IF Aligned(it) /\ s.pc % 2 = 1 THEN InsertPadding(s) ELSE s
 Emit(s, pd, n, v) == [s EXCEPT !.pc = @ + n, !.lay = Append(@, [a |-> s.pc, n |-> n, p |-> pd, v |-> v])]
 WrJmpError(s) == [s EXCEPT !.errs = @ + 1, !.jmp = IF s.repass THEN @ ELSE @ + 1]   \* asmerr.c WrXErrorPos
 
-\* one source statement (as.c Produce_Code + the target's MakeCode)
+\* operand evaluation of a reference statement (EvalStrIntExpression...): the PC symbol is EProgCounter()
+\* *after* the padding; t - l looks both symbols up
+Operand(s, it, ps) ==
+  IF PlainRef(it) THEN LookupSymbol(s, it.l, ps)
+  ELSE IF it.t = PcSym THEN [ok |-> TRUE, val |-> s.pc, fpu |-> FALSE, quest |-> FALSE, s |-> s]
+  ELSE LET r == LookupSymbol(s, it.t, ps) IN
+       IF ~(it.k = "labs" /\ it.df) \/ ~r.ok THEN r
+       ELSE LET r2 == LookupSymbol(r.s, it.l, ps) IN
+            [ok |-> r2.ok, val |-> r.val - r2.val, fpu |-> r.fpu \/ r2.fpu, quest |-> r.quest \/ r2.quest, s |-> r2.s]
+
+\* one source statement (as.c Produce_Code + the target's MakeCode): label field, automatic padding (which
+\* moves that label), operand evaluation, code
 Statement(s0, it, ps) ==
-  LET sl == IF it.k = "def" THEN LabelHandle(s0, it.l, ps) ELSE s0     \* label field is handled first
+  LET sl == IF it.k = "def" \/ (IsSelf(it) /\ it.l # NoLab) THEN LabelHandle(s0, it.l, ps) ELSE s0
       s  == PadIfOdd(sl, it)
       pd == s.pc - sl.pc
       body ==
         CASE it.k = "def"  -> Emit(s, pd, 2, -1)
           [] it.k = "fill" -> Emit(s, pd, it.n, -1)
           [] it.k = "ins"  -> Emit(s, pd, 2, -1)
-          [] it.k = "abs"  -> LET r == LookupSymbol(s, it.l, ps) IN
+          [] IsAbs(it)     -> LET r == Operand(s, it, ps) IN
                               IF r.ok THEN Emit(r.s, pd, it.w, r.val) ELSE Emit(r.s, pd, 0, -1)
-          [] it.k = "var"  -> LET r == LookupSymbol(s, it.l, ps) IN
+          [] IsVar(it)     -> LET r == Operand(s, it, ps) IN
                               IF ~r.ok THEN Emit(r.s, pd, 0, -1)
                               ELSE Emit(r.s, pd, IF ShortOK(r.val, s.pc) THEN VarShort ELSE VarLong, r.val)
-          [] it.k = "rel"  -> LET r == LookupSymbol(s, it.l, ps) IN
+          [] IsRel(it)     -> LET r == Operand(s, it, ps) IN
                               IF ~r.ok THEN Emit(r.s, pd, 0, -1)
                               ELSE IF ~Disp8(r.val - (s.pc + 2)) /\ ~r.quest /\ ~(RelFpuOK /\ r.fpu)
                                    THEN Emit(WrJmpError(r.s), pd, 0, -1)        \* ErrNum_JmpDistTooBig
